@@ -206,9 +206,12 @@ func (fr *Frame) applyContract(in ssa.Instruction, callee *ssa.Function, sp *Fun
 		}
 		e.oblige("pre", fr.prefix+name+"/"+lbl, fr.pc, t, e.posOf(in.Pos()), "precondition of "+key+": "+r.Src)
 	}
-	if e.spec != nil && e.spec.CallPre != nil && callee != nil {
+	if e.spec != nil && e.spec.CallPre != nil {
 		for name, cls := range e.spec.CallPre {
-			if name != e.L.shortName(callee) && name != callee.Name() {
+			if callee != nil && name != e.L.shortName(callee) && name != callee.Name() {
+				continue
+			}
+			if callee == nil && !strings.HasSuffix(key, "."+name) && key != name {
 				continue
 			}
 			cenv := e.calleeEnv(callee, sp, args, binds, fr.st, nil)
